@@ -35,6 +35,9 @@ pub fn exec(func: &str, a: &mut Args) -> String {
     match func {
         "orientation2d" => { let p = d2::p(a); let q = d2::p(a); let r = d2::p(a); let e = a.f();
             fori(Triangle::orientation2d(&p, &q, &r, e)).into() }
+        // the method `Triangle::orientation(&self, eps)` (dim2) has its own copy of the body of `orientation2d`
+        "triangle_orientation" => { let p = d2::p(a); let q = d2::p(a); let r = d2::p(a); let e = a.f();
+            fori(Triangle::new(p, q, r).orientation(e)).into() }
         "segments_intersection2d" | "segments_collinear_vertical" | "segments_collinear_horizontal" | "segments_collinear_generic" => { let p = d2::p(a); let q = d2::p(a); let r = d2::p(a); let s = d2::p(a); let e = a.f();
             match segments_intersection2d(&p, &q, &r, &s, e) {
                 None => "none".into(),
@@ -58,7 +61,7 @@ pub fn exec(func: &str, a: &mut Args) -> String {
             let mut s = format!("{}", out.len());
             for q in out.iter() { s.push(' '); s.push_str(&d2::fp(q)); }
             s }
-        "convex_polygons_intersection_points" | "convex_axis_edge_pair" => { let p1 = poly(a); let p2 = poly(a);
+        "convex_polygons_intersection_points" | "convex_axis_edge_pair" | "convex_large_pair" => { let p1 = poly(a); let p2 = poly(a);
             let mut out = Vec::new();
             crate::p2::transformation::convex_polygons_intersection_points(&p1, &p2, &mut out);
             let mut s = format!("{}", out.len());
@@ -404,6 +407,7 @@ pub fn gen(r: &mut Rng, thorough: bool) -> Vec<(String, String)> {
         let (t0, t1) = (pt(r, lat), pt(r, lat));
         let t2 = if r.below(6) == 0 { lerp(&t0, &t1, par(r, lat)) } else { pt(r, lat) };
         v.push(("orientation2d".into(), format!("{} {} {} {}", d2::hp(&t0), d2::hp(&t1), d2::hp(&t2), hx(gen_eps(r)))));
+        v.push(("triangle_orientation".into(), format!("{} {} {} {}", d2::hp(&t0), d2::hp(&t1), d2::hp(&t2), hx(gen_eps(r)))));
         v.push(("corner_direction".into(), format!("{} {} {}", d2::hp(&t0), d2::hp(&t1), d2::hp(&t2))));
         let tri = [t0, t1, t2];
         let q = gen_query(r, lat, &tri);
@@ -471,11 +475,67 @@ pub fn gen(r: &mut Rng, thorough: bool) -> Vec<(String, String)> {
                 v.push(("convex_points_with_tolerances".into(), format!("{} {} {}", hpoly(&p1), hpoly(&p2), hx(e))));
             }
         }
+        // large convex polygons (the property's range is 3 to 64 vertices): many crossings, long walks against the loop cap
+        if it % 4 == 1 {
+            let (p1, p2, class) = gen_convex_large_pair(r, it % 8 == 1);
+            *fam.entry(format!("convex_large_pair/{}/n1={}..{}", class, p1.len() / 16 * 16, p1.len() / 16 * 16 + 15)).or_insert(0) += 1;
+            v.push(("convex_large_pair".into(), format!("{} {}", hpoly(&p1), hpoly(&p2))));
+        }
         // non-convex ∩ non-convex (simple polygons)
         if it % 4 < 2 { gen_nc(r, lat, &mut v, it % 32 == 4 || it % 32 == 5); }
     }
     if std::env::var("VERIF_FAMILIES").is_ok() { for (k, c) in fam.iter() { eprintln!("C15 family {}: {}", k, c); } }
     v
+}
+
+/// a strictly convex polygon with `2 m` vertices (up to 64).  Lattice: the edge vectors are `m` distinct primitive integer
+/// vectors of the upper half-plane and their negatives, sorted by angle (their cumulative sums are the vertices: exact,
+/// strictly convex, counter-clockwise), scaled by 1/4.  Random: points of an ellipse at sorted random angles.
+fn gen_convex_large(r: &mut Rng, lat: bool) -> Vec<P2> {
+    let m = 4 + r.below(29) as usize; // 8 .. 64 vertices
+    if lat {
+        let gcd = |mut a: i64, mut b: i64| { a = a.abs(); b = b.abs(); while b != 0 { let t = a % b; a = b; b = t; } a };
+        let mut dirs: Vec<(i64, i64)> = Vec::new();
+        let mut guard = 0;
+        while dirs.len() < m && guard < 10000 {
+            guard += 1;
+            let dx = r.below(15) as i64 - 7; let dy = r.below(8) as i64;
+            if (dy == 0 && dx <= 0) || gcd(dx, dy) != 1 { continue; }
+            if !dirs.contains(&(dx, dy)) { dirs.push((dx, dy)); }
+        }
+        // angle order in the upper half-plane: decreasing dx/dy slope, i.e. by cross product
+        dirs.sort_by(|a, b| (b.0 * a.1 - a.0 * b.1).cmp(&0));
+        let mut all = dirs.clone(); all.extend(dirs.iter().map(|d| (-d.0, -d.1)));
+        let (ox, oy) = (r.below(17) as i64 - 8, r.below(17) as i64 - 8);
+        let (mut x, mut y) = (ox, oy);
+        let mut p = Vec::new();
+        for d in all.iter() { p.push(P2::new(x as f64 * 0.25, y as f64 * 0.25)); x += d.0; y += d.1; }
+        p
+    } else {
+        // the exact oracle is slow on large non-lattice polygons (long rationals): mostly up to 32 vertices, sometimes up to 64
+        let m = if r.below(4) == 0 { m } else { 4 + m % 13 };
+        let n = 2 * m;
+        let mut ang: Vec<f64> = (0..n).map(|k| (k as f64 + r.uniform(0.1, 0.9)) * 6.283185307179586 / n as f64).collect();
+        ang.sort_by(|a, b| a.partial_cmp(b).unwrap());
+        let (rx, ry) = (r.logu(1.0, 1e2), r.logu(1.0, 1e2));
+        let c = pt(r, false);
+        ang.iter().map(|t| P2::new(c.x + rx * t.cos(), c.y + ry * t.sin())).collect()
+    }
+}
+/// a large convex polygon against: a slightly shifted copy (many crossings), another large polygon around the same
+/// centre, a scaled copy (containment, parallel edges), a small polygon, a far copy; random start vertex / orientation
+fn gen_convex_large_pair(r: &mut Rng, lat: bool) -> (Vec<P2>, Vec<P2>, &'static str) {
+    let p = gen_convex_large(r, lat);
+    let c = centroid(&p); let c = P2::new(snap(c.x, lat), snap(c.y, lat));
+    let (q, class): (Vec<P2>, &'static str) = match r.below(6) {
+        0 | 1 => { let d = if lat { (r.lattice(4, 2), r.lattice(4, 2)) } else { (r.uniform(-1.0, 1.0), r.uniform(-1.0, 1.0)) }; (shift(&p, d.0, d.1), "shifted-copy") }
+        2 => { let t = gen_convex_large(r, lat); let ct = centroid(&t); (shift(&t, snap(c.x - ct.x, lat), snap(c.y - ct.y, lat)), "concentric-other") }
+        3 => { let k = *r.pick(&[0.5, 2.0, 0.75]); (p.iter().map(|v| P2::new(c.x + (v.x - c.x) * k, c.y + (v.y - c.y) * k)).collect(), "scaled-copy") }
+        4 => { let t = gen_convex(r, lat); let ct = centroid(&t); (shift(&t, snap(c.x - ct.x, lat), snap(c.y - ct.y, lat)), "small-polygon-at-centre") }
+        _ => (shift(&p, if lat { 64.0 } else { 1000.0 }, 0.0), "far-copy"),
+    };
+    let (p, q) = if r.bool() { (p, q) } else { (q, p) };
+    (respin(r, p), respin(r, q), class)
 }
 
 /// a triangle and a query point of a chosen class (the class name carries the orientation of the triangle)
